@@ -1,14 +1,16 @@
 #!/bin/sh
-# builds ocaml/modelrun from the extracted model (gen/) and the drivers; offline.
+# ocaml/build.sh <component> — extracts coq/Extract/Extract_<component>.v into gen_<component>/
+# (coqc is run inside that directory: 8.16 has no output-directory option) and links
+# conv.ml + drv_<component>*.ml + modelrun.ml into ocaml/modelrun_<component>.  Offline.
 set -e
 cd "$(dirname "$0")"
-rm -rf _build && mkdir -p _build
-cp gen/*.ml gen/*.mli conv.ml drv_*.ml modelrun.ml _build/
-cd _build
-# drivers register themselves; modelrun must come last and depend on all drivers
-DRV=$(ls drv_*.ml | sed 's/\.ml$//' )
-for d in $DRV; do m=$(echo "$d" | sed 's/^./\U&/'); echo "let _ = $m.run" >> link_all.ml; done
+C="$1"
+[ -n "$C" ] || { echo "usage: build.sh <component>" >&2; exit 2; }
+rm -rf "gen_$C" "_build_$C" && mkdir -p "gen_$C" "_build_$C"
+( cd "gen_$C" && timeout 1800 coqc -Q ../../coq GM "../../coq/Extract/Extract_$C.v" > /dev/null )
+cp "gen_$C"/*.ml "gen_$C"/*.mli conv.ml drv_"$C"*.ml modelrun.ml "_build_$C"/
+cd "_build_$C"
 ORDER=$(ocamlfind ocamldep -sort $(ls *.ml *.mli | grep -v '^modelrun.ml$'))
-ocamlfind ocamlopt -package zarith -linkpkg -O2 -w -a -o ../modelrun $ORDER modelrun.ml 2>&1 || \
-ocamlfind ocamlopt -package zarith -linkpkg -w -a -o ../modelrun $ORDER modelrun.ml
-cd .. && rm -rf _build
+ocamlfind ocamlopt -package zarith -linkpkg -O3 -unboxed-types 2>/dev/null -w -a -o "../modelrun_$C" $ORDER modelrun.ml || \
+ocamlfind ocamlopt -package zarith -linkpkg -w -a -o "../modelrun_$C" $ORDER modelrun.ml
+cd .. && rm -rf "_build_$C"
